@@ -272,9 +272,12 @@ var c06Words = []string{"#CFG:", "Saved", "Cancelled", "Stopped", "Interrupted"}
 
 func (c *ctx) c06Prefix() (string, bool) {
 	// returns a prefix and whether it is "clean" (no marker, no '%', so no control-mode framing)
-	switch c.rng.Intn(10) {
-	case 0:
+	switch c.rng.Intn(14) {
+	case 0, 10:
 		return "", true
+	case 11, 12, 13:
+		s := strings.ReplaceAll(c.c06Noise(c.rng.Intn(40)), "%", "$")
+		return s, !strings.Contains(s, c06Marker)
 	case 1, 2:
 		s := c.c06Noise(c.rng.Intn(30))
 		return s, !strings.Contains(s, "%") && !strings.Contains(s, c06Marker)
@@ -534,6 +537,24 @@ func genDetector06(c *ctx) {
 			}
 			c06Hist(c, [3]bool{false, false, false}, seed, calls)
 			c.count("history:seeded")
+		}
+	}
+
+	// ---- 5b. the refuted full form of relay-forward (Props/C06.v C06_relay_forward_refuted), replayed
+	// on the implementation: "#R" shifts a finished-transfer word from offset 38/39 to 40/41
+	for _, w := range c06Words {
+		for _, off := range []int{37, 38, 39, 40} {
+			trg := "::TRZSZ:TRANSFER:R:1.0.0:0"
+			buf := trg + strings.Repeat(" ", off-len(trg)) + w
+			out, t := single([3]bool{true, false, false}, false, buf)
+			if t != nil {
+				_, t2 := trzsz.VerifNewDetector(false, false).Detect(out, false)
+				if t2 == nil {
+					c.count("relay-forward:lost")
+					c.violate("relay-forward-lookahead", "a relay forwards a trigger (short, no 13-digit id) that the client then takes for a finished transfer because #R moved the word to offset 40",
+						fmt.Sprintf("relay buf=%q forwarded=%q", buf, out))
+				}
+			}
 		}
 	}
 
